@@ -65,6 +65,9 @@ def replay(c):
             back = Hands._hand_parser(t)
             if back != hand:
                 bad.append(f'{t!r} parses back to a different hand')
+            again = Hands._hand_parser(t)
+            if again is back:
+                bad.append(f'two decodes of {t!r} return the SAME set object: playing a card from one deal removes it from the other')
         except Exception as e:
             bad.append(f'raised {e!r}')
         return bool(bad), f'hand {sorted(map(str, hand))}: ' + '; '.join(bad)
@@ -75,6 +78,8 @@ def replay(c):
         sets = [({card_of(i) for i in pack[13 * j:13 * j + 13]} if c['present'][j] else set()) for j in range(4)]
         deal = Hands(*[set(s) for s in sets])
         try:
+            if c.get('earlier_first'):
+                deal.to_pbn(Player(c['earlier_first']))        # an earlier write from the same object
             line = deal.to_pbn(Player(c['first']))
             if not line.startswith(str(Player(c['first'])) + ':'):
                 bad.append(f'line {line!r} does not start with the first seat')
